@@ -28,8 +28,8 @@ pub fn c02() -> Check {
         property: "C02",
         level: "exploration",
         scenarios: vec![Box::new(SqlScenario { name: "c02-sql", family: Family::Any, mode: Mode::Exact, need_reference: false, weight: 1 })],
-        cases_quick: 3_000,
-        cases_thorough: 60_000,
+        cases_quick: 16_000,
+        cases_thorough: 400_000,
         rule: "runs: one generated SQL query (joins of every type, semi/anti/NOT IN, nested-loop, cross, GROUP BY, DISTINCT, ORDER BY/LIMIT, UNION [ALL], window functions, IN/scalar subqueries, join+aggregate) over two generated tables split into 1-4 scripted partitions, under a random semantic-neutral configuration (target_partitions 1-8, batch_size 1-8192, join/aggregate/sort/window repartitioning switches, hash-join thresholds, partial-aggregation skipping, dynamic filters, sort pushdown, coalescing, ...), 1-3 copies of the query running concurrently in one session, one scheduler policy per run; result compared with an independent reference evaluator where one exists, otherwise with the baseline configuration (single partition MemTable, defaults). distinct = distinct poll traces; non-trivial = a scheduling decision had >= 2 runnable tasks or a refusal/fault fired",
         assumptions: L1_ASSUME.to_vec(),
         components: components(),
@@ -41,8 +41,8 @@ fn exact(property: &'static str, name: &'static str, family: Family, rule: &'sta
         property,
         level: "exploration",
         scenarios: vec![Box::new(SqlScenario { name, family, mode: Mode::Exact, need_reference: true, weight: 1 })],
-        cases_quick: 3_000,
-        cases_thorough: 60_000,
+        cases_quick: 16_000,
+        cases_thorough: 400_000,
         rule,
         assumptions: L1_ASSUME.to_vec(),
         components: components(),
@@ -69,8 +69,8 @@ pub fn c18() -> Check {
             Box::new(SqlScenario { name: "c18-joins", family: Family::Join, mode: Mode::Pressure, need_reference: true, weight: 2 }),
             Box::new(SqlScenario { name: "c18-any", family: Family::Any, mode: Mode::Pressure, need_reference: false, weight: 1 }),
         ],
-        cases_quick: 4_000,
-        cases_thorough: 80_000,
+        cases_quick: 16_000,
+        cases_thorough: 400_000,
         rule: "runs: generated queries (sort/top-k, grouped aggregation, all join kinds, windows, unions, DISTINCT) under a bounded Greedy or FairSpill pool with limits from 0 bytes to ample, optional noisy neighbour, spill compression none/lz4/zstd, tiny spill files, randomised sort spill reservation; outcome must equal the unlimited-memory expectation (reference evaluator or baseline) or fail with ResourcesExhausted anywhere in the error chain; never panic or hang; afterwards pool 0 bytes, no spill file, no live task or input stream. distinct/non-trivial as for C02",
         assumptions: L1_ASSUME.to_vec(),
         components: components(),
@@ -82,8 +82,8 @@ pub fn c19() -> Check {
         property: "C19",
         level: "fault_enumeration",
         scenarios: vec![Box::new(SqlScenario { name: "c19-drop", family: Family::Any, mode: Mode::Drop, need_reference: false, weight: 1 })],
-        cases_quick: 4_000,
-        cases_thorough: 80_000,
+        cases_quick: 16_000,
+        cases_thorough: 400_000,
         rule: "runs: generated queries executed through the real planner, whose output stream is dropped before the first poll or after 1..3 batches (drop point swept by the generator), merged stream or per-partition consumption; afterwards the simulator runs the system to quiescence and checks: no live background task, every input stream released, pool 0 bytes, no spill file. distinct/non-trivial as for C02",
         assumptions: L1_ASSUME.to_vec(),
         components: components(),
@@ -95,8 +95,8 @@ pub fn c20() -> Check {
         property: "C20",
         level: "fault_enumeration",
         scenarios: vec![Box::new(SqlScenario { name: "c20-faults", family: Family::Any, mode: Mode::Fault, need_reference: false, weight: 1 })],
-        cases_quick: 4_000,
-        cases_thorough: 80_000,
+        cases_quick: 16_000,
+        cases_thorough: 400_000,
         rule: "runs: generated queries with exactly one scripted fault whose position is swept by the generator: an input partition returns an error or panics at a random step, or (under a bounded pool that forces spilling) the k-th spill create/write/flush/finish/read fails (torn/sticky variants). Once the fault has fired the result must be an error (or the injected panic re-raised) or the complete expected result; never a truncated success, hang or foreign panic; afterwards the release invariants of C19. distinct/non-trivial as for C02",
         assumptions: L1_ASSUME.to_vec(),
         components: components(),
